@@ -364,7 +364,7 @@ pub fn c02_thorough() -> Vec<(Scenario, bool)> {
     // messages on both branches of chains
     for order in 0..2 {
         let (t1, t2) = if order == 0 { (10, 20) } else { (20, 10) };
-        v.push((base(&format!("chain-msgs-o{order}"), &m4, &["A", "B"], &[], vec![msg("Z", "z0"), rename("A", "a1", t1).then(vec![msg("C", "c-on-a"), rename("A", "a2", 30)]), rename("B", "b1", t2).then(vec![msg("C", "c-on-b")])]), true));
+        v.push((base(&format!("chain-msgs-o{order}"), &m4, &["A", "B"], &[], vec![msg("Z", "z0"), rename("A", "a1", t1).then(vec![msg("C", "c-on-a"), rename("A", "a2", 30)]), rename("B", "b1", t2).then(vec![msg("Z", "z-on-b")])]), true));
     }
     v
 }
